@@ -27,15 +27,15 @@ C18_Distinct == HNoDup(reps) /\ Len(reps) <= rf
 C18_ZoneBalanced == LoopDone /\ CanBalance(rf, az) => ZoneBalanced(Chosen, az)
 (* stronger, explains why the greedy walk works: while balancing is possible the partial     *)
 (* choice is balanced at every step                                                           *)
-C18_AlwaysBalanced == CanBalance(rf, az) => ZoneBalanced(Chosen, az)
-C18_CanBalanceForm == CanBalance(rf, az) = CanBalanceDef(rf, az)
+C18_AlwaysBalanced == Walking /\ CanBalance(rf, az) => ZoneBalanced(Chosen, az)
+C18_CanBalanceForm == Walking /\ reps = <<>> => CanBalance(rf, az) = CanBalanceDef(rf, az)
 C18_Function == LoopDone => reps = SectionReplicas(ring, az, rf, 1)
 
 (* Renumbering endpoints (= listing them in another order): swapping two adjacent numbers    *)
 (* generates every permutation, so invariance under each swap is invariance under all.       *)
 Swap(a, n) == [k \in 1..n |-> IF k = a THEN a + 1 ELSE IF k = a + 1 THEN a ELSE k]
 C18_OrderFree ==
-    reps = <<>> =>
+    Walking /\ reps = <<>> =>
       LET n == Len(az)
           base == SectionReplicas(ring, az, rf, 1)
       IN \A a \in 1..(n - 1) :
